@@ -27,7 +27,9 @@ func c09Data(t *rapid.T) []string {
 }
 
 func c09Queued(t *rapid.T) []string {
-	switch weighted(t, "q", []int{14, 2, 2, 3, 1, 1}) {
+	switch weighted(t, "q", []int{14, 2, 2, 3, 1, 1, 1}) {
+	case 6:
+		return []string{"SELECT", pick(t, "qdb", "0", "1", "2")}
 	case 0:
 		return c09Data(t)
 	case 1:
@@ -53,6 +55,9 @@ func c09Gen(t *rapid.T) MultiCase {
 	txs := rapid.IntRange(1, 4).Draw(t, "txs")
 	observer := func() {
 		for i := rapid.IntRange(0, 2).Draw(t, "obs"); i > 0; i-- {
+			if rapid.IntRange(0, 5).Draw(t, "obsdb") == 0 {
+				add(1, "SELECT", pick(t, "odb", "0", "1", "2"))
+			}
 			add(1, c09Data(t)...)
 		}
 	}
@@ -66,6 +71,9 @@ func c09Gen(t *rapid.T) MultiCase {
 				add(0, "UNWATCH")
 			case 2:
 				add(0, pick(t, "nomulti", "EXEC", "DISCARD"))
+			case 3:
+				// watches are per database: the connection moves on after watching
+				add(0, "SELECT", pick(t, "db", "0", "1", "2"))
 			default:
 				add(0, c09Data(t)...)
 			}
